@@ -1094,8 +1094,8 @@ class MultiCouplingTerms(CouplingTerms):
         ijkl = [t[1] for t in term]
         assert all([i < j for i, j in zip(ijkl, ijkl[1:])])  # ascending?
         op_needs_JW = [sites[i % L].op_needs_JW(op) for op, i in term]
-        if not any(op_needs_JW):
-            op_string = 'Id'
+        if op_string is None and not any(op_needs_JW):
+            op_string = 'Id'  # (only the default: an explicitly given `op_string` is kept)
         # shift ijkl such that first site is inside unit cell
         i0 = ijkl[0]
         if not 0 <= i0 < L:  # ensure this condition with a shift
